@@ -40,6 +40,11 @@ class RulesFitsStream(Stream):
 
     def corpus(self):
         return [
+            # a defaultdict lacking the attribute: Falsy would accept the default 0
+            {'checker': 'CRules', 'policy': pol([['d', [['a', ['Falsy']]]]], field='subjects'), 'field': 'subjects',
+             'what': {'D': [['b', 1]]}, 'dict_default': [0], 'rxtable': [], 'inq': None},
+            {'checker': 'CRules', 'policy': pol([['d', [['b', ['Eq', 1]], ['a', ['Any']]]]], field='subjects'),
+             'field': 'subjects', 'what': {'D': [['b', 1]]}, 'dict_default': [None], 'rxtable': [], 'inq': None},
             {'checker': 'CRules', 'policy': pol([['d', []]], field='subjects'), 'field': 'subjects',
              'what': {'D': []}, 'rxtable': [], 'inq': None},
             {'checker': 'CRules', 'policy': pol([['d', [['a', ['Eq', 1]], ['b', ['Broken', 'ValueError']]]]],
@@ -71,7 +76,16 @@ class RulesFitsStream(Stream):
                 inq = {'resource': specs.jv(v), 'action': specs.jv(v), 'subject': specs.jv(v), 'context': None}
                 if rng.random() < 0.5:
                     inq[rng.choice(['resource', 'action', 'subject'])] = specs.jv(gen.value(rng, 1))
-            yield {'checker': 'CRules', 'policy': p, 'field': f, 'what': specs.jv(v), 'rxtable': [], 'inq': inq}
+            case = {'checker': 'CRules', 'policy': p, 'field': f, 'what': specs.jv(v), 'rxtable': [], 'inq': inq}
+            if isinstance(v, dict) and rng.random() < 0.3:
+                # the same content offered as a defaultdict, with an attribute missing: a default value that the
+                # attribute's rule would accept must not make the attribute count as present
+                w = dict(v)
+                if w and rng.random() < 0.8:
+                    w.pop(rng.choice(sorted(w)))
+                case['what'] = specs.jv(w)
+                case['dict_default'] = [specs.jv(rng.choice([0, '', None, 1, 'a', [], False]))]
+            yield case
 
     def emit(self, c):
         base = e_fcase(c)
@@ -143,7 +157,7 @@ ASSUME = ['rules that raise a non-Exception BaseException propagate (stated in t
 
 def main(argv):
     return run_check('C04', [RulesFitsStream()], argv, trusted_base=TRUSTED, assumptions=ASSUME,
-                     translated=('checker',))
+                     translated=('checker', 'pin_rules'))
 
 
 if __name__ == '__main__':
